@@ -2,33 +2,53 @@ CHECK = {
     "id": "C20",
     "level": "exploration",
     "engine": "E3",
-    "technique": "bounded-exhaustive enumeration of parameter trees, compound unit strings and small grids run through the "
-                 "real YAMLDictionary/ParameterFile, UnitConverter and GadgetDensityGridWriter + snapshot readers, compared "
-                 "with an independent writer / dimension table / field function",
-    "level_text": "Every key set with at most 3 keys of depth 1..4 over the names {a,b} (4 525 sets, 2 859 of them valid "
-                  "trees) is written by an independent YAML writer in every key order with every assignment of the four "
+    "technique": "bounded-exhaustive enumeration of parameter trees, numbers at and beyond the integer widths in every "
+                 "notation, compound unit strings and grids (small ones and ones that cross the chunk limit and block size of "
+                 "the writers) run through the real YAMLDictionary/ParameterFile, UnitConverter and GadgetDensityGridWriter + "
+                 "snapshot readers, compared with an independent writer / the number itself / dimension table / field function",
+    "level_text": "Every key set with 0..3 keys of depth 1..4 over the names {a,b} (4 526 sets, 2 860 of them valid "
+                  "trees, the empty file included) is written by an independent YAML writer in every key order with every assignment of the four "
                   "value kinds (and in three indentation styles x two header sharing modes with a rotating assignment of "
                   "17 value kinds), parsed by the real YAMLDictionary, printed by its printer, parsed and printed again "
                   "(same keys and values, text fixed point), and run through the real ParameterFile with keys present or "
                   "defaulted: the used-values dump is read back and must return every value to the printed precision. "
+                  "Numbers: 3 487 integer magnitudes (2^p-3..2^p+3 for p <= 64, one and two non-zero digits at every "
+                  "decimal position up to 10^19, neighbours of 10^k, digit patterns of every length, up to 2^64-1) x sign x "
+                  "the 7 integer types with a convert specialisation (only values the type holds) are written positionally, "
+                  "with a leading zero, in hexadecimal, in exponent notation for every exponent that divides the number, as "
+                  "vector component and as default of an absent key: each must read as the number itself, its used value must "
+                  "be the decimal text, and the dump fed back (3 generations) must return the first value exactly; 137 "
+                  "floating point numbers around 2^24/31/32/53/63/64/100 and 10^k (k <= 30) x sign x 5 fraction spellings x "
+                  "positional / exponent notation, plain, with unit and as vector components must read as the correctly "
+                  "rounded double and come back from the dump to 6 digits. "
                   "Every compound unit string of up to 3 factors (24 unit names x exponents -3..3; 4.8 million strings) is "
                   "given to the real UnitConverter and compared with the product of its parts, and converted to and from "
                   "SI for every quantity of matching dimension. Grids of 2..4 cells per axis x every subgrid layout x 4 "
                   "boxes x 3 density fields are written by the real GadgetDensityGridWriter through the task based, hydro "
                   "and legacy paths; the file is read with the plain HDF5 API and by both snapshot density functions and "
-                  "compared cell by cell. The thorough tier adds all styles/sharing modes/present masks, depth 5, 4-key "
+                  "compared cell by cell (each reader object is used for two passes in different orders; buffered reader with 1, 2, "
+                  "all and all + 3 buffers). 19 further grid "
+                  "shapes/layouts cross the constants of the code: 1023/1024/1025/2050 rows (HDF5 chunk limit 1 << 10) and "
+                  "subgrids of 9801, exactly 10000, 10010, exactly 20000, 21924 cells, 2 and 3 subgrids of 10000..13156 "
+                  "cells split along each axis, 8 x 1680 and the cubes 22^3 and 44^3/2x2x2 (block size 10000 of the writers: "
+                  "1, 2 and 3 blocks per subgrid), all with a different temperature and neutral fraction in every cell; 15 "
+                  "cases check the second snapshot written by the same writer object. The thorough tier adds three-digit "
+                  "patterns (31 717 integer magnitudes), all 2^p +- 1 floats up to 2^109, 19 more large grids (up to 64^3 and "
+                  "one subgrid of 85 184 cells = 9 blocks) with all three fields in two boxes, all styles/sharing modes/present masks, depth 5, 4-key "
                   "sets, two 3-name alphabets ('a b', 'ab'), all 27 grid shapes, every exponent spelling in 3-factor unit "
                   "strings and 4-factor strings. Exhaustive inside these bounds; nothing is sampled.",
-    "level_note": "Names and values without ':' or '#'. Key sets that are not prefix free are run and their outcome "
+    "level_note": "Names and values without ':' or '#'. Integers only in types that hold them, hexadecimal only with as many "
+                  "digits as the parser accepts, integer exponents without sign ('1e+3' is read as 1: recorded as a probe).  Key sets that are not prefix free are run and their outcome "
                   "(rejected by cmac_error or kept as flat keys) is recorded, not judged. Snapshot boxes are representable in "
                   "the 6 digits the snapshot's parameter block keeps (a box that is not makes the buffered reader abort - "
                   "recorded as a probe). No temperature<->energy conversion exists in this version of the converter.",
     "quick_deadline": 100,
-    "thorough_deadline": 1100,
+    "thorough_deadline": 1200,
     "parts": [
-        {"name": "trees", "bin": "c20_trees", "share": 0.55},
-        {"name": "units", "bin": "c20_units", "share": 0.2},
-        {"name": "snapshots", "bin": "c20_snapshots", "share": 0.25},
+        {"name": "trees", "bin": "c20_trees", "share": 0.4},
+        {"name": "numbers", "bin": "c20_numbers", "share": 0.08},
+        {"name": "units", "bin": "c20_units", "share": 0.15},
+        {"name": "snapshots", "bin": "c20_snapshots", "share": 0.37},
     ],
     "assumptions": [],
 }
